@@ -152,8 +152,9 @@ impl SignatureConverter<'_> {
 
         for param in params.into_iter() {
             match &param {
-                syn::GenericParam::Type(_) => {}
-                _ => {
+                // type and const parameters are parameters of the trait
+                syn::GenericParam::Type(_) | syn::GenericParam::Const(_) => {}
+                syn::GenericParam::Lifetime(_) => {
                     generics.params.push(param);
                 }
             }
